@@ -31,8 +31,15 @@ def run(ctx: Ctx):
     repo = ctx.repo
     rules.rule_transition(ctx, "D1")
     ctx.attempt(rules.rule_enter_installs, ctx, "D1")
-    ctx.attempt(rules.rule_state_lineage, ctx, "D1", rules.step_path_funcs(repo))
     ai = repo.func(SSO, "apply_instructions")
+    # the instruction path: everything apply_instructions can reach (every activity's enter / exit and their helpers)
+    inst_roots = [ai] + [f for f in repo.all_funcs() if f.name == "apply_instruction"]
+    reach = rules.reachable_funcs(repo, inst_roots)
+    if reach is None:
+        raise AnalysisError("instruction path: reachability bound exceeded")
+    on_path = [f for f in rules.step_path_funcs(repo) if f in reach]
+    ctx.require(len(on_path) >= 40, f"instruction path has only {len(on_path)} functions")
+    ctx.attempt(rules.rule_state_lineage, ctx, "D1", on_path)
     fam = [ai] + [f for f in repo.module(SSO).funcs.values() if f.qualname.startswith("apply_instructions.")]
     n = sum(rules.rule_adopt_on_success(ctx, f, "transition_previous_to_next", "D2") for f in fam)
     ctx.require(n >= 1, "apply_instructions no longer adopts transition_previous_to_next's state")
